@@ -64,8 +64,8 @@ impl<'a, P: AsyncWrite + Unpin + 'a> Future for WriteAll<'a, P> {
                         self.owner.poisoned = true;
                         #[cfg(feature = "verif")]
                         crate::common::verif::emit(crate::common::verif::Event::Poison);
-                        return Poll::Ready(Err(e));
                     }
+                    return Poll::Ready(Err(e));
                 }
             }
         }
